@@ -17,12 +17,12 @@ CHECKS = {
             "5/C01"),
     "C02": ("exploration",
             "property-based testing (proptest) with a reference-model oracle: independent Viterbi recurrence over the dumped candidate nodes and over a reference lattice",
-            "Held on ~330k generated (dictionary, options, sentence) triples per quick run (generated dictionaries incl. id mappings, plus the repository's own resource dictionary): every lattice node's prefix minimum, the EOS minimum (incl. the connection to id 0), each token's running total_cost and the reported path's total equal an independent recomputation; 5% of cases have the EOS connection deciding the winner, 10% have ties; the reference Viterbi is itself cross-checked by brute-force enumeration of all segmentations on ~220k short sentences per run.",
+            "Held on ~330k generated (dictionary, options, sentence) triples per quick run (generated dictionaries incl. id mappings, plus the repository's own resource dictionary): every lattice node's prefix minimum, the EOS minimum (incl. the connection to id 0), each token's running total_cost and the reported path's total equal an independent recomputation; 5% of cases have the EOS connection deciding the winner, 10% have ties; the reference Viterbi is itself cross-checked by brute-force enumeration of all segmentations on ~220k short sentences per run; a scale sub-check expands 48 (thorough: 800) compact cases into dictionaries with 65533-131075 nodes ending at one position or that many unknown entries (the 16-bit boundaries of node indices and word ids).",
             "Costs come from the harness's reference dictionary and connectors (naive sums). Optimality is judged over the implementation's own candidate nodes read through the lattice-dump hook; candidate correctness is C03. i32 overflow regime not explored.",
             "5/C02"),
     "C03": ("exploration",
             "property-based testing (proptest) with a reference-model oracle: the literal candidate rule re-implemented naively, compared as multisets per position through the lattice dump",
-            "Held on ~330k generated cases per quick run (generated dictionaries and the repository's resource dictionary) with every sub-rule (invoke suppression, grouping, bound edge run-1 in {max,max+1} incl. MeCab's default max=24, length prefixes, duplicate-run skip, single-char fallback, multi-category chaining, multiple unk entries) occurring in >5% of cases.",
+            "Held on ~330k generated cases per quick run (generated dictionaries and the repository's resource dictionary) with every sub-rule (invoke suppression, grouping, bound edge run-1 in {max,max+1} incl. MeCab's default max=24, length prefixes, duplicate-run skip, single-char fallback, multi-category chaining, multiple unk entries) occurring in >5% of cases; plus the scale sub-check of C02 (65533-131075 lexicon rows or unknown entries at one position) under the candidate oracle.",
             "Reference char classes follow 'last covering range line wins, DEFAULT otherwise'. Excluded by construction: range lines covering U+0000 (astral characters take U+0000's class: open known finding), categories without unk entries. ignore_space only in the C12-precondition domain.",
             "5/C03"),
     "C04": ("exploration",
